@@ -16,13 +16,14 @@
 //! restarts a child that died and attributes the death to the case whose `BEGIN`
 //! was the last one printed; it prints
 //!     <input line> => asan=<CLEAN|PANIC|ASAN(kind)|CRASH(sig)|NOASAN> dbg=<CLEAN|PANIC|CRASH(sig)> :: <records>
+#![allow(unexpected_cfgs)]
 use std::io::{BufRead, BufReader, Write};
 use std::ops::Range;
 use std::process::{Command, Stdio};
 
 use lightmotif::abc::{Alphabet, Background, Dna, Protein, Symbol};
-use lightmotif::dense::DenseMatrix;
-use lightmotif::num::{Unsigned, U16, U21, U32, U48, U5, U7};
+use lightmotif::dense::{DenseMatrix, MatrixElement};
+use lightmotif::num::{ArrayLength, Unsigned, U16, U21, U32, U48, U5, U7};
 use lightmotif::pli::dispatch::Dispatch;
 use lightmotif::pli::platform::{Avx2, Generic, Sse2};
 use lightmotif::pli::{Encode, Maximum, Pipeline, Score, Stripe, Threshold};
@@ -32,6 +33,63 @@ use lightmotif::scan::Scanner;
 use lightmotif::scores::StripedScores;
 use lightmotif::seq::{EncodedSequence, StripedSequence, SymbolCount};
 use lmh::*;
+
+
+// ------------------------------------------------- spare capacity is not owned content
+//
+// The footprint model counts `rows * stride` bytes of a matrix (and `len` bytes of a symbol
+// vector) as owned, not the `Vec` capacity behind them.  AddressSanitizer only knows the
+// allocation.  In the sanitizer build (`--cfg lm_asan`) the harness therefore poisons the
+// spare capacity of every buffer a call only READS (sequence matrix, scoring matrix, score
+// matrix of max/argmax, symbol vector of stripe) for the duration of the call, so that an
+// over-read that stays inside the allocation is reported like one that leaves it.  (Buffers
+// the call may resize cannot be treated that way: `Vec::resize` legitimately writes there.)
+
+#[cfg(lm_asan)]
+extern "C" {
+    fn __asan_poison_memory_region(addr: *const u8, size: usize);
+    fn __asan_unpoison_memory_region(addr: *const u8, size: usize);
+}
+
+const ASAN_OPTIONS: &str =
+    "detect_leaks=0:halt_on_error=1:abort_on_error=0:exitcode=99:allocator_may_return_null=1:detect_stack_use_after_return=0:symbolize=0:allow_user_poisoning=1";
+
+/// Address and size of the rows between `rows()` and `capacity()`.
+fn spare_of<T: MatrixElement, C: ArrayLength>(m: &DenseMatrix<T, C>) -> Option<(usize, usize)> {
+    if m.rows() == 0 || m.capacity() <= m.rows() {
+        return None;
+    }
+    let rb = m.stride() * std::mem::size_of::<T>();
+    Some((m[0].as_ptr() as usize + m.rows() * rb, (m.capacity() - m.rows()) * rb))
+}
+
+fn spare_of_vec<T>(v: &Vec<T>) -> Option<(usize, usize)> {
+    if v.capacity() <= v.len() {
+        return None;
+    }
+    let sz = std::mem::size_of::<T>();
+    Some((v.as_ptr() as usize + v.len() * sz, (v.capacity() - v.len()) * sz))
+}
+
+struct Poisoned(Vec<(usize, usize)>);
+
+fn poison(regions: &[Option<(usize, usize)>]) -> Poisoned {
+    let v: Vec<(usize, usize)> = regions.iter().flatten().cloned().collect();
+    #[cfg(lm_asan)]
+    for &(a, n) in &v {
+        unsafe { __asan_poison_memory_region(a as *const u8, n) };
+    }
+    Poisoned(v)
+}
+
+impl Drop for Poisoned {
+    fn drop(&mut self) {
+        #[cfg(lm_asan)]
+        for &(a, n) in &self.0 {
+            unsafe { __asan_unpoison_memory_region(a as *const u8, n) };
+        }
+    }
+}
 
 // ------------------------------------------------------------------ pipelines
 
@@ -357,11 +415,13 @@ fn run_ops<A: AbcX>(be: &str, seed: u64, ops: &[&str]) -> String {
                 );
                 let enc = &st.enc;
                 let striped = &mut st.striped;
+                let guard = poison(&[spare_of_vec(enc)]);
                 let r = no_panic(|| match how {
                     0 => *striped = stripe_with(&pli, enc),
                     1 => stripe_into_with(&pli, enc, striped),
                     _ => *striped = EncodedSequence::<A>::new(enc.clone()).to_striped::<U32>(),
                 });
+                drop(guard);
                 match r {
                     None => format!("stripe|{}|P", params),
                     Some(()) => format!(
@@ -452,6 +512,7 @@ fn run_ops<A: AbcX>(be: &str, seed: u64, ops: &[&str]) -> String {
                 let params = format!("arm={},{}", arm, score_params(&st.striped, st.pssm.matrix(), st.fs.matrix(), &rows));
                 let (striped, pssm, fs) = (&st.striped, &st.pssm, &mut st.fs);
                 let full = p[0] == "score";
+                let guard = poison(&[spare_of(striped.matrix()), spare_of(pssm.matrix())]);
                 let r = no_panic(|| {
                     if full {
                         each!(&pli, p => p.score_into(pssm, striped, fs))
@@ -459,6 +520,7 @@ fn run_ops<A: AbcX>(be: &str, seed: u64, ops: &[&str]) -> String {
                         each!(&pli, p => p.score_rows_into(pssm, striped, rows.clone(), fs))
                     }
                 });
+                drop(guard);
                 match r {
                     None => format!("score|{}|P", params),
                     Some(()) => format!("score|{}|{},{}", params, st.fs.matrix().rows(), st.fs.matrix().capacity()),
@@ -469,7 +531,9 @@ fn run_ops<A: AbcX>(be: &str, seed: u64, ops: &[&str]) -> String {
                 let rows = if p[0] == "uscore" { 0..sr.wrapping_sub(st.striped.wrap()) } else { pu(p[1])..pu(p[2]) };
                 let params = format!("arm={},{}", arm, score_params(&st.striped, st.dm.matrix(), st.us.matrix(), &rows));
                 let (striped, dm, us) = (&st.striped, &st.dm, &mut st.us);
+                let guard = poison(&[spare_of(striped.matrix()), spare_of(dm.matrix())]);
                 let r = no_panic(|| A::score_u8(&pli, dm, striped, rows.clone(), us));
+                drop(guard);
                 match r {
                     None => format!("uscore|{}|P", params),
                     Some(false) => format!("uscore|{}|U", params),
@@ -497,6 +561,7 @@ fn run_ops<A: AbcX>(be: &str, seed: u64, ops: &[&str]) -> String {
                     m.stride()
                 );
                 let fs = &st.fs;
+                let guard = poison(&[spare_of(fs.matrix())]);
                 let r = no_panic(|| match p[0] {
                     "max" => each!(&pli, p => p.max(fs)).map(|x| x.to_bits() as u64).map_or(0, |x| x + 1),
                     "argmax" => each!(&pli, p => p.argmax(fs)).map_or(0, |c| (c.row * 32 + c.col + 1) as u64),
@@ -504,6 +569,7 @@ fn run_ops<A: AbcX>(be: &str, seed: u64, ops: &[&str]) -> String {
                     "sargmax" => fs.argmax().map_or(0, |c| c as u64 + 1),
                     _ => each!(&pli, p => p.threshold(fs, 0.5f32)).len() as u64,
                 });
+                drop(guard);
                 match r {
                     None => format!("fmax|{}|P", params),
                     Some(v) => format!("fmax|{}|{}", params, (v != 0) as u8),
@@ -521,11 +587,13 @@ fn run_ops<A: AbcX>(be: &str, seed: u64, ops: &[&str]) -> String {
                     m.stride()
                 );
                 let us = &st.us;
+                let guard = poison(&[spare_of(us.matrix())]);
                 let r = no_panic(|| match p[0] {
                     "umax" => each!(&pli, p => p.max(us)).map_or(0, |x| x as u64 + 1),
                     "uargmax" => each!(&pli, p => p.argmax(us)).map_or(0, |c| (c.row * 32 + c.col + 1) as u64),
                     _ => each!(&pli, p => p.threshold(us, 200u8)).len() as u64,
                 });
+                drop(guard);
                 match r {
                     None => format!("umax|{}|P", params),
                     Some(v) => format!("umax|{}|{}", params, (v != 0) as u8),
@@ -547,7 +615,9 @@ fn run_ops<A: AbcX>(be: &str, seed: u64, ops: &[&str]) -> String {
                     mode
                 );
                 let (striped, pssm, fs) = (&st.striped, &st.pssm, &mut st.fs);
+                let guard = poison(&[spare_of(striped.matrix()), spare_of(pssm.matrix())]);
                 let r = no_panic(|| A::scan(pssm, striped, block, thr, if usebuf { Some(fs) } else { None }, mode));
+                drop(guard);
                 match r {
                     None => format!("scan|{}|P", params),
                     Some(None) => format!("scan|{}|U", params),
@@ -582,6 +652,7 @@ fn run_ops<A: AbcX>(be: &str, seed: u64, ops: &[&str]) -> String {
             "count" => {
                 let striped = &st.striped;
                 let enc = &st.enc;
+                let _guard = poison(&[spare_of(striped.matrix()), spare_of_vec(enc)]);
                 let r = no_panic(|| {
                     let a = SymbolCount::<A>::count_symbols(striped);
                     let b = SymbolCount::<A>::count_symbols(&&enc[..]);
@@ -1059,10 +1130,7 @@ fn run_child(exe: &str, asan: bool, lines: &[String]) -> Vec<ChildOut> {
         let mut cmd = Command::new(exe);
         cmd.arg("exec").stdin(Stdio::piped()).stdout(Stdio::piped()).stderr(Stdio::piped());
         if asan {
-            cmd.env(
-                "ASAN_OPTIONS",
-                "detect_leaks=0:halt_on_error=1:abort_on_error=0:exitcode=99:allocator_may_return_null=1:detect_stack_use_after_return=0:symbolize=0",
-            );
+            cmd.env("ASAN_OPTIONS", ASAN_OPTIONS);
         }
         let mut child = match cmd.spawn() {
             Ok(c) => c,
@@ -1140,6 +1208,49 @@ fn run_child(exe: &str, asan: bool, lines: &[String]) -> Vec<ChildOut> {
     res
 }
 
+#[inline(never)]
+fn crashme(kind: &str) {
+    use std::hint::black_box;
+    match kind {
+        "oob-read" => {
+            let b = vec![1u8; 100].into_boxed_slice();
+            let p = black_box(b.as_ptr());
+            black_box(unsafe { std::ptr::read_volatile(p.add(100)) });
+        }
+        "oob-write" => {
+            let mut b = vec![1u8; 100].into_boxed_slice();
+            let p = black_box(b.as_mut_ptr());
+            unsafe { std::ptr::write_volatile(p.add(100), 7) };
+            black_box(&b);
+        }
+        "spare-read" => {
+            // row 4 of a 4-row matrix with capacity 8: allocated, not owned
+            let m = DenseMatrix::<u8, U32>::with_capacity(4, 8);
+            let _g = poison(&[spare_of(&m)]);
+            let p = black_box(m[0].as_ptr());
+            black_box(unsafe { std::ptr::read_volatile(p.add(4 * m.stride())) });
+        }
+        "spare-vec-read" => {
+            let mut v: Vec<u8> = Vec::with_capacity(64);
+            v.resize(37, 1);
+            let _g = poison(&[spare_of_vec(&v)]);
+            let p = black_box(v.as_ptr());
+            black_box(unsafe { std::ptr::read_volatile(p.add(37)) });
+        }
+        "misaligned" => {
+            #[cfg(target_arch = "x86_64")]
+            unsafe {
+                use std::arch::x86_64::*;
+                let m = DenseMatrix::<u8, U32>::new(4);
+                let p = black_box(m[0].as_ptr().add(1));
+                let x = _mm_load_si128(p as *const __m128i);
+                black_box(x);
+            }
+        }
+        _ => {}
+    }
+}
+
 fn main() {
     let a = parse_args();
     match a.cmd.as_str() {
@@ -1184,8 +1295,48 @@ fn main() {
                 println!("{} => asan={} dbg={} :: {}", l, asan[i].verdict, dbg[i].verdict, recs);
             }
         }
+        "crashme" => {
+            // deliberate memory errors made by the harness itself (sanitizer self-test)
+            let kind = a.rest.first().map(|s| s.as_str()).unwrap_or("clean");
+            crashme(kind);
+            println!("survived {}", kind);
+        }
+        "selftest" => {
+            let asan_bin = std::env::var("LM_FP_ASAN_BIN")
+                .unwrap_or_else(|_| "/verif/build/cargo-asan/x86_64-unknown-linux-gnu/debug/footprint".to_string());
+            let me = std::env::current_exe().unwrap().to_string_lossy().to_string();
+            let mut ok = true;
+            // (binary, kind, must die, stderr must mention the sanitizer)
+            let plan: [(&str, &str, bool, bool); 8] = [
+                (&asan_bin, "clean", false, false),
+                (&asan_bin, "oob-read", true, true),
+                (&asan_bin, "oob-write", true, true),
+                (&asan_bin, "spare-read", true, true),
+                (&asan_bin, "spare-vec-read", true, true),
+                (&asan_bin, "misaligned", true, false),
+                (&me, "clean", false, false),
+                (&me, "misaligned", true, false),
+            ];
+            for (exe, kind, must_die, must_asan) in plan {
+                let o = Command::new(exe).arg("crashme").arg(kind).env("ASAN_OPTIONS", ASAN_OPTIONS).output();
+                let (died, asan) = match &o {
+                    Ok(o) => (!o.status.success(), String::from_utf8_lossy(&o.stderr).contains("AddressSanitizer")),
+                    Err(_) => (false, false),
+                };
+                let good = o.is_ok() && died == must_die && (!must_asan || asan);
+                println!(
+                    "{} {}: {}{}",
+                    if exe == me { "debug" } else { "asan" },
+                    kind,
+                    if died { if asan { "reported" } else { "died" } } else { "survived" },
+                    if good { "" } else { " UNEXPECTED" }
+                );
+                ok &= good;
+            }
+            std::process::exit(if ok { 0 } else { 1 });
+        }
         _ => {
-            eprintln!("usage: footprint gen --seed S --n N [--tier t] | run | exec");
+            eprintln!("usage: footprint gen --seed S --n N [--tier t] | run | exec | selftest");
             std::process::exit(2);
         }
     }
